@@ -521,27 +521,31 @@ std::string float_mpq_to_string(mpq_class& q) {
     mpz_ui_pow_ui(d, 5, decimals);
     mpz_mul(n, n, d);
   }
+  // Room for the sign, the digits, "0." and the terminator.
   size_t bufsize = mpz_sizeinbase(n, 10);
   if (bufsize < decimals) {
-    bufsize = decimals + 4;
+    bufsize = decimals + 5;
   }
   else {
-    bufsize += 3;
+    bufsize += 4;
   }
   char buf[bufsize];
   mpz_get_str(buf, 10, n);
   if (decimals != 0) {
-    const size_t len = strlen(buf);
+    // The decimal point is placed among the digits: skip the sign, if any.
+    char* const digits = (buf[0] == '-') ? &buf[1] : &buf[0];
+    const size_t len = strlen(digits);
     if (decimals < len) {
-      memmove(&buf[len - decimals + 1], &buf[len - decimals], decimals + 1);
-      buf[len - decimals] = '.';
+      memmove(&digits[len - decimals + 1], &digits[len - decimals],
+              decimals + 1);
+      digits[len - decimals] = '.';
     }
     else {
       const size_t zeroes = decimals - len;
-      memmove(&buf[2 + zeroes], &buf[0], len + 1);
-      buf[0] = '0';
-      buf[1] = '.';
-      memset(&buf[2], '0', zeroes);
+      memmove(&digits[2 + zeroes], &digits[0], len + 1);
+      digits[0] = '0';
+      digits[1] = '.';
+      memset(&digits[2], '0', zeroes);
     }
   }
   return buf;
